@@ -106,7 +106,12 @@ def gen_case(seed):
             sc["opts"].pop(k, None)
         sc["fates"] = {"delay": sc["fates"]["delay"], "adv_seconds": 0.0, "loss": 0.0}
         t0 = 1.0
-        sc["script"] = [{"t": round(t0 + (i // 25) * 0.0001, 4), "side": vic, "op": "forge", "ptype": "1rtt", "frames_hex": "01", "pn_gap": r8.choice([1, 1, 2])} for i in range(n)]
+        gaps = [1, 1, 2]
+        if r8.random() < 0.4:
+            # ... far apart (4-byte gap fields) and so many that the ACK frames for all of them outgrow one packet
+            n = r8.choice([230, 260, 300])
+            gaps = [r8.choice([17000, 20000, 30000])]
+        sc["script"] = [{"t": round(t0 + (i // 25) * 0.0001, 4), "side": vic, "op": "forge", "ptype": "1rtt", "frames_hex": "01", "pn_gap": r8.choice(gaps)} for i in range(n)]
         sc["script"] += [{"t": t0 + 1.0, "side": "client", "op": "ping", "uid": 6000}, {"t": t0 + 2.0, "side": "server", "op": "ping", "uid": 6001}]
         sc["horizon"] = 30.0
         sc["mode"] = "many-ranges-burst"
